@@ -196,9 +196,16 @@ def check_C03(ctx):
     # fully explicit encodings: loaded hierarchy must equal the simulated history
     ex = [gen.gen_case(ctx.rng, explicit=True, tag='explicit') for _ in range(ctx.scale(150, 2000))]
     Ls2 = core.load_cases(ex)
-    for L in Ls2:
+    # bounded-exhaustive stream: every tree shape, single-family history and spelling within the bound
+    ml, md = (3, 2) if ctx.tier == 'quick' else (4, 1)
+    en = gen.enum_cases(ml, md)
+    ctx.counts['exhaustive_bound_leaves'] = ml
+    ctx.counts['exhaustive_bound_dups'] = md
+    ctx.counts['exhaustive_cases'] = len(en)
+    Ls3 = core.load_cases(en)
+    for L in Ls2 + Ls3:
         ctx.record_case(L.case)
-    for L in Ls + Ls2:
+    for L in Ls + Ls2 + Ls3:
         if L.impl[0] != 'ok':
             if L.case.histories is not None:
                 ctx.violation('consistent input rejected: %s' % (L.impl[1],),
